@@ -660,5 +660,14 @@ func (p *vpIdP) hLogout(rw http.ResponseWriter, r *http.Request) {
 	if st == 0 {
 		st = 200
 	}
+	if st < 0 {
+		// the endpoint is unreachable: the connection is dropped without an answer
+		if hj, ok := rw.(http.Hijacker); ok {
+			if c, _, err := hj.Hijack(); err == nil {
+				c.Close()
+				return
+			}
+		}
+	}
 	rw.WriteHeader(st)
 }
